@@ -182,7 +182,7 @@ Proof.
   - intros _. rewrite Hinv. replace (a * 1) with a by ring. reflexivity.
   - destruct (b2k_loop (Z.to_nat r) b p 0 =? r); [intros H; contradiction H; reflexivity|].
     apply IH. rewrite !cong_rem.
-    set (t := powmod y (2 ^ (r - b2k_loop (Z.to_nat r) b p 0 - 1)) p).
+    set (t := powmod y (shl 1 (r - b2k_loop (Z.to_nat r) b p 0 - 1)) p).
     transitivity ((x * x) * (t * t)); [apply eq_subrelation; [typeclasses eauto|ring]|].
     rewrite Hinv. apply eq_subrelation; [typeclasses eauto|ring].
 Qed.
